@@ -8,7 +8,7 @@ let sig_of_code (c : int) : ostring = match c with
   | 301 -> "replay-without-possdup" | 302 -> "replay-not-contiguous" | 303 -> "gapfill-malformed" | 304 -> "gapfill-skips-replayable"
   | 305 -> "replayed-admin-or-refused" | 306 -> "replay-body-differs" | 307 -> "replay-no-origsendingtime" | 308 -> "replay-wrong-end"
   | 309 -> "reply-to-empty-range"
-  | 401 -> "gap-request-wrong" | 402 -> "spurious-resend-request" | 403 -> "kept-message-not-delivered" | 404 -> "recovery-not-ended"
+  | 401 -> "gap-request-wrong" | 402 -> "spurious-resend-request" | 403 -> "kept-message-not-delivered" | 404 -> "recovery-not-ended" | 405 -> "kept-message-lost"
   | 601 -> "callback-past-gate" | 602 -> "wrong-reaction" | 603 -> "reject-shape"
   | 701 -> "disconnect-changed-store" | 702 -> "connect-changed-store" | 703 -> "reset-logon-shape" | 704 -> "seqreset-backwards"
   | 705 -> "reset-without-cause" | 706 -> "reset-option-ineffective" | 707 -> "reset-logon-reply"
@@ -62,7 +62,7 @@ let check (prop : ostring) cfg events (obs : Sx.t) : bool * ostring =
         let i = int_of_nat i and code = int_of_z c in
         let prev = arr.(i) and o = arr.(i + 1) in
         let sg =
-          if code >= 800 && code < 900 && int_of_z prev.ob_inbuf > 0 && (o.ob_closed || not (sh_connected o.ob_st)) then "drain-after-disconnect"
+          if int_of_z prev.ob_inbuf > 0 && (o.ob_closed || not (sh_connected o.ob_st)) then "drain-after-disconnect"
           else if code = 802 && int_of_z prev.ob_tosend > 0 && not (sh_logged_on prev.ob_st) then "queued-app-flushed-outside-logon"
           else sig_of_code code in
         (sg, code, i) in
